@@ -76,6 +76,8 @@ type Interp struct {
 	inInit     int
 	curHarness *ssa.Function
 	known      map[*Term]bool
+	decodes    map[string][]*decodeRec
+	encoded    map[string][][2]*Term
 	hstubs     map[string]Value
 }
 
@@ -105,6 +107,9 @@ func (in *Interp) resetPath(prefix []int) {
 	in.inInit = 0
 	in.hstubs = nil
 	in.known = map[*Term]bool{}
+	in.decodes = map[string][]*decodeRec{}
+	in.encoded = map[string][][2]*Term{}
+	in.decodes = map[string][]*decodeRec{}
 	in.sol.Send("(reset)\n(set-option :produce-models true)\n")
 	if in.sol.Name == "cvc5" {
 		in.sol.Send("(set-logic ALL)\n")
